@@ -88,6 +88,7 @@ func main() {
 	dump := flag.String("dump", "", "directory for standalone query dumps")
 	tags := flag.String("tags", "", "build tags")
 	seed := flag.Int64("seed", 0, "")
+	selfcheck := flag.Bool("selfcheck", false, "vacuity twin: every Reach is reported as a violation")
 	flag.Parse()
 
 	var specs []Spec
@@ -142,7 +143,7 @@ func main() {
 		c := exec.Config{Unwind: pick(sp.Unwind, *unwind), MaxSteps: pick(sp.MaxSteps, *steps), MaxDepth: pick(sp.MaxDepth, *depth),
 			MaxAlloc: pick64(sp.MaxAlloc, *alloc), MaxPaths: sp.MaxPaths, Solver: *solver, TimeoutMs: *timeout, Workers: *workers,
 			AllocViolation: sp.AllocViolation, UnwindViolation: sp.UnwindViolation, PanicOK: sp.PanicOK, Preempt: sp.Preempt,
-			RaceFields: sp.RaceFields, NoOps: sp.NoOps, TimerAnyTime: sp.TimerAnyTime, Verbose: *verbose, DumpDir: *dump, Seed: *seed}
+			RaceFields: sp.RaceFields, NoOps: sp.NoOps, TimerAnyTime: sp.TimerAnyTime, Verbose: *verbose, DumpDir: *dump, Seed: *seed, SelfCheck: *selfcheck}
 		if sp.BudgetS > 0 {
 			c.Deadline = time.Now().Add(time.Duration(sp.BudgetS) * time.Second)
 		}
